@@ -40,7 +40,8 @@ uint64_t simfd_rx_total(int task, int fd);
 int simfd_nonblocking(int task, int fd);
 size_t simfd_conn_txlog(int cid, int role, const unsigned char **p);
 extern uint64_t simfd_progress;
-extern int simfd_hard_error_t[];
+extern int simfd_hard_error_t[], simfd_eagain_t[];
+#define simfd_eagain (simfd_eagain_t[task_current()])
 #define simfd_hard_error (simfd_hard_error_t[task_current()])
 int simfs_is_fd(int fd);
 int simfs_close(int fd);
